@@ -143,8 +143,8 @@ theorem marshal_random_len {f : HelloFields} {pol : PadPolicy} {xs : List Ext} {
 
 /-- **what a successful marshal parses to** (no validity claim, hence no distinctness needed): the
 fields, and the (type, body) of the emitting extensions in list order. -/
-theorem marshal_parse (f : HelloFields) (pol : PadPolicy) (xs : List Ext) (bs : Bytes)
-    (hf : fieldsOK f = true) (ht : ∀ e ∈ xs, typeId e < 65536) (h : marshalNoECH f pol xs = .ok bs) :
+theorem marshal_parse' (f : HelloFields) (pol : PadPolicy) (xs : List Ext) (bs : Bytes)
+    (hf : fieldsOK f = true) (ht : ∀ e ∈ updated f pol xs, emits e = true → typeId e < 65536) (h : marshalNoECH f pol xs = .ok bs) :
     parseCH bs = some { vers := f.vers, random := f.random, sessionId := f.sessionId, suites := f.cipherSuites,
                         comps := f.compressionMethods, exts := expectedExts f pol xs } := by
   have hr := marshal_random_len h
@@ -167,8 +167,7 @@ theorem marshal_parse (f : HelloFields) (pol : PadPolicy) (xs : List Ext) (bs : 
     have hbound : ∀ e ∈ updated f pol xs, emits e = true → typeId e < 65536 ∧ (body e).length < 65536 := by
       intro e he hem
       refine ⟨?_, ?_⟩
-      · obtain ⟨a, ha, rfl⟩ := List.mem_map.mp he
-        rw [updatePad_typeId]; exact ht a ha
+      · exact ht e he hem
       · rcases emit_cases e with h0 | ⟨_, hfr, hl, _⟩
         · rw [(emits_iff e)] at hem; exact absurd h0 hem
         · have h1 := len_le_extsLen _ e he
@@ -182,6 +181,15 @@ theorem marshal_parse (f : HelloFields) (pol : PadPolicy) (xs : List Ext) (bs : 
     simp only at hparse
     rw [hparse]
     simp [expectedExts, hx, updated]
+
+theorem marshal_parse (f : HelloFields) (pol : PadPolicy) (xs : List Ext) (bs : Bytes)
+    (hf : fieldsOK f = true) (ht : ∀ e ∈ xs, typeId e < 65536) (h : marshalNoECH f pol xs = .ok bs) :
+    parseCH bs = some { vers := f.vers, random := f.random, sessionId := f.sessionId, suites := f.cipherSuites,
+                        comps := f.compressionMethods, exts := expectedExts f pol xs } := by
+  apply marshal_parse' f pol xs bs hf _ h
+  intro e he _
+  obtain ⟨a, ha, rfl⟩ := List.mem_map.mp he
+  rw [updatePad_typeId]; exact ht a ha
 
 /-! ## `fillExts` (transcription) vs `slots` (reference) -/
 
